@@ -194,6 +194,17 @@ def gen_base(rng, big=False):
         if "duplicates" not in tags:
             _duplicate(rng, lm, tags)
         tags["family"] = "discontinuous"
+        if rng.random() < 0.5:
+            # georeferenced coordinates (UTM-like: offsets 5e5 / 5.4e6, cell size ~10): absolute and relative mesh
+            # tolerance differ by orders of magnitude there, and max|x|^2 * 1e-8 exceeds the cell size — the regime
+            # in which mixing up the two tolerances in the duplicate tie-break changes the order
+            lm, tags = meshgen.gen_mesh(rng, max_cells_per_dir=3, dims=(2, 3), allow_orphans=False, scale=10.0,
+                                        dtypes=("f64", "f32", "i32", "i64"))
+            if "duplicates" not in tags:
+                _duplicate(rng, lm, tags)
+            shift = [5.0e5, 5.4e6, 250.0]
+            lm["points"] = [[c + shift[k] for k, c in enumerate(p)] for p in lm["points"]]
+            tags["family"] = "discontinuous-georef"
     elif r < 0.42:
         # small sizes around numpy's insertion-sort threshold (16/17 elements)
         lm, tags = meshgen.gen_mesh(rng, max_cells_per_dir=rng.choice([15, 16, 17, 18]), dims=(1, 2, 3), types="line",
@@ -233,6 +244,8 @@ def gen_pair(rng, big=False):
     A, tags = gen_base(rng, big)
     kind = rng.choice(["identity", "reversal", "random", "random", "random", "blockswap", "transposition"])
     noise = rng.choice([0.0, 0.0, 0.0, 1e-13, 1e-11, 1e-10])
+    if tags["family"] == "discontinuous-georef":
+        noise = rng.choice([0.0, 1e-11, 1e-11, 1e-12])
     eo_b = rng.choice([0, 0, 0, 1, 2])
     B = meshgen.relabel(rng, A, noise_rel=noise, extra_orphans=eo_b,
                         shuffle_blocks=rng.random() < 0.7, point_perm=perm_of_kind(rng, len(A["points"]), kind))
